@@ -628,6 +628,28 @@ def ttlclass(ctx: Any) -> List[Ob]:
                     good = norm(a) == ov and self_attr(b, me) == ttlf
                 elif isinstance(op, ast.Is):
                     good = norm(b) == ov and self_attr(a, me) == ttlf
+        if not good:
+            # ... or decided along the paths of the builder (the TTL chosen in the arms of an `if`): with no override the
+            # constructor gets the service's field, with one it gets the override -- on every path that builds a record
+            ovp = next((p_ for p_ in f.params[1:] if 'ttl' in p_), None)
+            if ovp is not None:
+                good = True
+                for ov_v in (None, 77):
+                    seen_t: Set[Any] = set()
+
+                    def eff_t(node: Any, evl: Any, seen_t: Set[Any] = seen_t) -> List[Any]:
+                        for c2 in fd.node_calls(node, evl):
+                            if c2 is c:
+                                v_ = evl.ev(c2.args[3])
+                                seen_t.add('UNKNOWN' if isinstance(v_, fd._Unknown) else v_)
+                        return []
+
+                    atoms_t = {ovp: ov_v, f'{me}.{ttlf}': fd.Sym('FIELD')}
+                    for a_ in {x.attr for x in ast.walk(f.node) if isinstance(x, ast.Attribute) and self_attr(x, me) and x.attr.endswith('_cache')}:
+                        atoms_t[f'{me}.{a_}'] = None
+                    traces(ctx, f, atoms_t, eff_t, loop_bound=1)
+                    good = good and seen_t == {fd.Sym('FIELD') if ov_v is None else ov_v}
+                    why = f'{why}; override {ov_v}: constructor gets {sorted(map(str, seen_t))}'
         obs.append(ob(R, f, c, f'{bn} uses the service\'s {ttlf} unless an override TTL is given', good, why))
     # enumeration pointer
     g = prog.func(QH + '._add_service_type_enumeration_query_answers')
